@@ -110,7 +110,7 @@ Qed.
 Lemma compile_strict rows e : forall row k,
   no_try e = true -> (forall z, strict (k z)) -> strict (compile rows e row k Raise).
 Proof.
-  induction e as [z|col|rc col|a IHa b IHb|c IHc a IHa b IHb| |a IHa z|a IHa z|idx key IHk|idx key IHk|idx key IHk col];
+  induction e as [z|col|rc col|a IHa b IHb|c IHc a IHa b IHb| |a IHa z|a IHa z|idx key IHk|idx key IHk|idx key IHk col|ks a IHa b IHb|sets col|idx key IHk col];
     intros row k Hn Hk; cbn [compile no_try] in *.
   - apply Hk.
   - constructor; [reflexivity | exact Hk].
@@ -125,6 +125,9 @@ Proof.
   - apply IHk; [exact Hn|]. intros kv. apply read_index_strict. intros ms. apply Hk.
   - apply IHk; [exact Hn|]. intros kv. apply read_index_strict. intros ms. apply Hk.
   - apply IHk; [exact Hn|]. intros kv. apply read_index_strict. intros ms. apply read_sum_strict. exact Hk.
+  - apply andb_true_iff in Hn. destruct Hn as [Ha Hb]. destruct (existsb (Z.eqb row) ks); [apply IHa | apply IHb]; assumption.
+  - discriminate.
+  - discriminate.
 Qed.
 
 (* grammar formulas whose only handlers are "except: re-raise CircularRefError, else a constant" *)
@@ -149,7 +152,7 @@ Lemma compile_cre_strict rows e : forall row k h,
   h CircularRef = Raise CircularRef -> (forall x, cre_strict (h x)) ->
   cre_strict (compile rows e row k h).
 Proof.
-  induction e as [z|col|rc col|a IHa b IHb|c IHc a IHa b IHb| |a IHa z|a IHa z|idx key IHk|idx key IHk|idx key IHk col];
+  induction e as [z|col|rc col|a IHa b IHb|c IHc a IHa b IHb| |a IHa z|a IHa z|idx key IHk|idx key IHk|idx key IHk col|ks a IHa b IHb|sets col|idx key IHk col];
     intros row k h Hn Hk Hc Hh; cbn [compile no_cre_catch] in *.
   - apply Hk.
   - constructor; [exact Hc|]. intros [z|x]; [apply Hk | apply Hh].
@@ -167,6 +170,10 @@ Proof.
   - apply IHk; [exact Hn| |exact Hc|exact Hh]. intros kv. apply read_index_cre; [|exact Hc|exact Hh]. intros ms. apply Hk.
   - apply IHk; [exact Hn| |exact Hc|exact Hh]. intros kv. apply read_index_cre; [|exact Hc|exact Hh].
     intros ms. apply read_sum_cre; assumption.
+  - apply andb_true_iff in Hn. destruct Hn as [Ha Hb].
+    destruct (existsb (Z.eqb row) ks); [apply IHa | apply IHb]; assumption.
+  - discriminate.
+  - discriminate.
 Qed.
 
 Lemma prog_of_cre_strict cols rows :
@@ -246,13 +253,21 @@ Proof.
   constructor; [exact Hl|]. intros [z|x]; [apply IH; assumption | apply Hh].
 Qed.
 
+Lemma require_rows_below lv b col rs k :
+  (lv col < b)%nat -> reads_below (fun c => lv (fst c)) b k ->
+  reads_below (fun c => lv (fst c)) b (require_rows col rs k).
+Proof.
+  intros Hl Hk. induction rs as [|r t IH]; cbn [require_rows]; [exact Hk|].
+  constructor; [exact Hl|]. intros _. exact IH.
+Qed.
+
 Lemma compile_reads_below lv b rows e : forall row k h,
   below_level lv b e = true ->
   (forall z, reads_below (fun c => lv (fst c)) b (k z)) ->
   (forall x, reads_below (fun c => lv (fst c)) b (h x)) ->
   reads_below (fun c => lv (fst c)) b (compile rows e row k h).
 Proof.
-  induction e as [z|col|rc col|a IHa b' IHb|c IHc a IHa b' IHb| |a IHa z|a IHa z|idx key IHk|idx key IHk|idx key IHk col];
+  induction e as [z|col|rc col|a IHa b' IHb|c IHc a IHa b' IHb| |a IHa z|a IHa z|idx key IHk|idx key IHk|idx key IHk col|ks a IHa b' IHb|sets col|idx key IHk col];
     intros row k h Hl Hk Hh; cbn [compile below_level] in *.
   - apply Hk.
   - constructor; [cbn [fst]; apply Nat.ltb_lt; exact Hl|]. intros [z|x]; [apply Hk | apply Hh].
@@ -274,6 +289,13 @@ Proof.
     apply Nat.ltb_lt in H1. apply Nat.ltb_lt in H2.
     apply IHk; [exact H3| |exact Hh]. intros kv. apply read_index_below; [exact H1| |exact Hh].
     intros ms. apply read_sum_below; assumption.
+  - apply andb_true_iff in Hl. destruct Hl as [H1 H2].
+    destruct (existsb (Z.eqb row) ks); [apply IHa | apply IHb]; assumption.
+  - apply Nat.ltb_lt in Hl. apply require_rows_below; [exact Hl|]. apply read_sum_below; assumption.
+  - apply andb_true_iff in Hl. destruct Hl as [Hl H3]. apply andb_true_iff in Hl. destruct Hl as [H1 H2].
+    apply Nat.ltb_lt in H1. apply Nat.ltb_lt in H2.
+    apply IHk; [exact H3| |exact Hh]. intros kv. apply read_index_below; [exact H1| |exact Hh].
+    intros ms. apply require_rows_below; [exact H2|]. apply read_sum_below; assumption.
 Qed.
 
 Lemma levelled_acyclic lv cols rows :
